@@ -16,8 +16,9 @@ from ..spec import Objects
 
 ID = "C09"
 LEVEL = "exploration"
-N = {"quick": 56, "thorough": 4000}
+N = {"quick": 44, "thorough": 4000}
 BUDGET_S = {"quick": 150, "thorough": 1500}
+CASE_TIMEOUT_S = 420
 RULE = ("each case = one bundle spec + a set of schedules: random partitions of the run into run_model(num_steps=k_i, "
         "initialize_model=False) calls (k from {1, small, large, overshoot}), partitions cut on / one before / one after every "
         "harvest step of the reference run, first-call-initialises variants, neighbour noise between calls (entity construction, "
@@ -44,23 +45,26 @@ def _compositions(n):
 def gen_case(rng, tier, idx):
     prof = dict(PROFILE)
     short = idx % 4 == 3
+    if short:
+        from ..domain import CAL_CROPS
+        prof["crops"] = CAL_CROPS
     spec = gen_spec(rng, prof)
     if short:
-        # short window (3..9 days) for exhaustive compositions
+        # short window (3..9 days) for exhaustive compositions; it must contain a planting date (a window without one is
+        # a known C16 finding), which lands on day 0 .. n-1 of the window, so the compositions cut before, on and after
+        # the first in-season day
         import datetime as dt
         from ..spec import parse_date, fmt_date
+        from ..gen import planting_dates
         n = rng.randint(3, 9)
-        shape = rng.choice(["start", "planting", "harvest"])
-        s = parse_date(spec["start"])
-        if shape == "planting":
-            from ..gen import planting_dates
-            pl = planting_dates(spec)
-            if pl:
-                s = max(s, pl[0] - dt.timedelta(days=rng.randint(1, n - 1)))
+        pl = planting_dates(spec)
+        s = pl[0] - dt.timedelta(days=rng.randint(0, n - 1)) if pl else parse_date(spec["start"])
         spec["start"] = fmt_date(s)
         spec["end"] = fmt_date(s + dt.timedelta(days=n))
         if parse_date(spec["weather"]["start"]) > s:
             spec["weather"]["start"] = fmt_date(s)
+        if spec.get("gw"):
+            spec["gw"] = {"water_table": "Y", "method": "Constant", "dates": [spec["start"].replace("/", "")], "values": spec["gw"]["values"][:1]}
     scheds = []
     nrand = 4 if tier == "quick" else 8
     for _ in range(nrand):
